@@ -77,7 +77,7 @@ def diff_edges(got, want):
     return sorted(got - want), sorted(want - got)
 
 
-def simulate(g, assignment, max_steps=400, edges=None):
+def simulate(g, assignment, max_steps=400, edges=None, start="ENTRY", stop=None):
     """Walk an EventGraph from ENTRY choosing, at each event node, the outgoing edge compatible with
     assignment[role]: a bool (True='else'/non-zero side, False='0'), an int/str (first label component),
     or a callable(label)->bool. Nodes with a single unlabelled edge are passed through. Returns the list
@@ -86,11 +86,11 @@ def simulate(g, assignment, max_steps=400, edges=None):
     out = {}
     for a, l, b in canon_edges:
         out.setdefault(a, []).append((l, b))
-    cur = "ENTRY"
+    cur = start
     trace = []
     for _ in range(max_steps):
         trace.append(cur)
-        if cur.startswith("RET("):
+        if cur.startswith("RET(") or (stop is not None and stop(cur)):
             return trace
         es = out.get(cur, [])
         if not es:
